@@ -277,7 +277,8 @@ func init() {
 						}
 						recs = append(recs, fmt.Sprintf("s%d", i), c13MsaMenu[k])
 					}
-					if refAt == len(idx) {
+					if refAt == len(idx) || variant/12%2 == 1 {
+						// (variants 12..23: the reference record occurs twice, as when alignments that each carry it are concatenated)
 						recs = append(recs, "ref", g12)
 					}
 					c := Call{Cmd: "variants", Msa: fastaOf(recs...), RefID: "ref", Anno: gb, AnnoSuffix: "gb", AppendSNP: variant/3%2 == 1, Threads: 2}
@@ -307,7 +308,7 @@ func init() {
 				if tier == "thorough" && p[1] == "snps" {
 					maxLen = 5
 				}
-				nv := map[string]int{"snps": 2, "variants": 12, "samvariants": 4}[p[1]]
+				nv := map[string]int{"snps": 2, "variants": 24, "samvariants": 4}[p[1]]
 				k := 0
 				nodes := seqsOver(6, maxLen, func(idx []int) {
 					k++
